@@ -8,8 +8,14 @@ HMOD = "Cfg.Fs Cfg.GoMod Cfg.Pipeline Harness.C10"
 # one failing stage for (the file of) one interface / one package; None = nothing fails
 STAGES = [None, None, "MissingRemoteTemplateRootPkg", "SchemaRejectIface", "TemplateExecution", "InvalidGoOutput",
           "PrepareFailure", "SchemaMissing", "TemplateSyntaxRootPkg", "UnknownTemplateRootPkg", None, "UnknownFormatterIface",
-          "SchemaRejectLater", "UnknownTemplateEntry", None, "SchemaRejectEntry"]
-CLASS_OF = lambda k: re.sub(r"(RootPkg|Root|Pkg|Iface|Entry|Later)$", "", k)
+          "SchemaRejectLater", "UnknownTemplateEntry", None, "SchemaRejectEntry",
+          # runs that fail outside the per-file stages - some end through os.Exit after the files were
+          # written - followed by a corrected second run in the same tree
+          "ListedMissing", "ListedMissingAll", "ListedMissingStale", "PkgLoadErrorFileless"]
+RERUN_STAGES = ("ListedMissing", "ListedMissingAll", "ListedMissingStale", "PkgLoadErrorFileless", "UnknownTemplateRootPkg",
+                "MissingRemoteTemplateRootPkg")
+CLASS_OF = lambda k: "ListedMissing" if k.startswith("ListedMissing") else ("PkgLoadError" if k.startswith("PkgLoadError") else
+                                                                               re.sub(r"(RootPkg|Root|Pkg|Iface|Entry|Later)$", "", k))
 # absent / what the run would write / that plus a trailing comment / LONGER than the new content and
 # different from its first line on (an earlier run with more mocks) / user content / a directory
 STATES = ["absent", "absent", "same", "stale", "longer", "longer", "user", "user", "dir"]
@@ -69,7 +75,7 @@ OUTSIDE_SRC = ("parent-link", "link-dangling", "link-devfull")     # only for ou
 LINK_STATES = ["link-file", "link-file-outside", "link-dangling", "link-dir", "parent-link"] + (["link-devfull"] if P.devfull_ok() else [])
 # every third scenario has no failing stage and puts ONE output into a state taken round-robin from this
 # list, with force-file-write alternately true and false: each (state, force) pair occurs in every run
-FOCUS = [(st, f) for f in (True, False) for st in ["absent", "same", "stale", "longer", "user", "dir"] + LINK_STATES + ["alias-rel", "alias-link"]]
+FOCUS = [(st, f) for f in (True, False) for st in ["absent", "same", "stale", "longer", "user", "dir"] + LINK_STATES + ["alias-rel", "alias-link", "symcwd"]]
 
 
 def put_state(s, rel, st, pkgname):
@@ -132,10 +138,54 @@ def gen_alias(rng, how, force):
     return s, base
 
 
+def gen_symcwd(rng, force, witness=False):
+    """The working directory is entered through a symbolic link ($PWD = m/work/proj -> ../real/proj) and
+    `dir` is relative and starts with `..`: the kernel resolves ../mocks from the PHYSICAL directory
+    (m/real/mocks), lexical cleaning of $PWD/../mocks names m/work/mocks.  The designated output is the
+    physical one; a hand-written file with the same name waits in the lexical sibling.  Both directories
+    are in the snapshot.  witness: the lexical sibling does not exist beforehand (known finding
+    C10-lexical-sibling-dir: findPkgPath's MkdirAll creates it, empty)."""
+    pk = rng.sample(["a", "b", "c"], 2)
+    base = P.new_scn(pk)
+    base["root"].update({"dir": rng.choice(["../mocks/{{.SrcPackageName}}", "../../x/mocks/{{.SrcPackageName}}"]),
+                         "filename": "mocks.go", "pkgname": "mocks"})
+    # (the logical and the physical directory have the same depth below the module root: the go command
+    # locates go.mod lexically from $PWD and opens it relative to the physical directory)
+    base["cwd"] = "m/real/sub/proj" if base["root"]["dir"].startswith("../../") else "m/real/proj"
+    for n in pk:
+        base["packages"][P.pkg_path(n)] = {"config": {"all": True}}
+    s = copy.deepcopy(base)
+    two = s["root"]["dir"].startswith("../../")
+    s["pwd"] = "m/work/sub/proj" if two else "m/work/proj"
+    s["links"][s["pwd"]] = "../../real/sub/proj" if two else "../real/proj"
+    s["root"]["force-file-write"] = force
+    s["init"] = P.unrelated_files(rng, s)
+    s["init_from_ref"] = {}
+    states = {}
+    up = "m/real/"                           # ../.. resp. .. from the physical directory
+    lex = "m/work/"                          # ... from the logical one
+    sub = "x/mocks/" if two else "mocks/"
+    for n in pk:
+        g = P.pkg_goname(n)
+        rel = up + sub + g + "/mocks.go"
+        st = rng.choice(["absent", "absent", "user", "longer"])
+        states[rel] = st
+        put_state(s, rel, st, "mocks")
+        if not witness and lex != up:
+            s["init"][lex + sub + g + "/mocks.go"] = b"package mocks\n\n// hand-written, in the directory that $PWD/.. names lexically\n"
+    s["states"] = states
+    s["tags"] += ["force:focus-%s" % force, "state:symcwd"] + (["known:C10-lexical-sibling-dir"] if witness else [])
+    if witness:
+        s["witness"] = "C10-lexical-sibling-dir"
+    return s, base
+
+
 def gen_c10(rng, i):
     focus = FOCUS[(i // 3) % len(FOCUS)] if i % 3 == 0 else None
     if focus and focus[0].startswith("alias"):
         return gen_alias(rng, *focus)
+    if focus and focus[0] == "symcwd":
+        return gen_symcwd(rng, focus[1])
     # the other scenarios: every stage with every formatter (48 = 16 stages x 3 formatters per quick run):
     # a stage failure that leaves an EMPTY or partial text behind is only visible when the formatter lets it
     # through (noop always, gofmt for an empty text; goimports rejects it)
@@ -195,6 +245,8 @@ def gen_c10(rng, i):
             st = "absent"
         elif k == fidx:
             st = focus[0]
+        elif stage in RERUN_STAGES:
+            st = rng.choice(["absent", "absent", "same", "stale", "longer", "user"])
         else:
             st = rng.choice(STATES + (LINK_STATES[:1] + LINK_STATES[2:4] if rng.random() < 0.3 else []))
         if st in OUTSIDE_SRC and rel.rsplit("/", 1)[0] in ["m/" + n for n in s["pkgs"]]:
@@ -210,8 +262,11 @@ def gen_c10(rng, i):
     s["states"] = states
     for st in set(states.values()):
         s["tags"].append("state:" + st)
+    if stage in RERUN_STAGES:
+        s["rerun"] = True
+        s["tags"].append("rerun")
     # a permission fault now and then
-    if not focus and rng.random() < 0.22:
+    if not focus and stage not in RERUN_STAGES and rng.random() < 0.22:
         rel = rng.choice(sorted(states))
         parent = rel.rsplit("/", 1)[0]
         if states[rel] == "absent" and (parent in ("m/a", "m/b", "m/c", "m/r", "m/r/s1", "m/r/s2")):
@@ -297,6 +352,25 @@ def oracle_c10(res):
                 # write of this very run created - without force-file-write it must be refused
                 errs.append("exit status 0 although %d output files of this run (%s) denote the same file %s and force-file-write is false: "
                             "the write that came second replaced the file the first one had just created" % (len(keys), sorted(keys), name))
+    if "run2" in res:
+        # the corrected configuration, run in the tree the failed run left behind, must succeed, write every
+        # designated output completely and touch nothing else
+        r2, after2 = res["run2"], res["after2"]
+        cfgfile = tuple((scn.get("cwd", "m") + "/.mockery.yml").split("/"))
+        if r2["cls"] != "Exit0":
+            errs.append("a corrected second run in the same tree does not succeed (exit class %s): %s" % (r2["cls"], r2["tail"][-300:]))
+        outs2 = {tuple(q["path"]) for _, q in P.selected(res["world2"]) if not q["outside"]}
+        anc2 = {o[:k] for o in outs2 for k in range(len(o))}
+        for path in sorted(set(after) | set(after2)):
+            if path in outs2 or path in anc2 or path == cfgfile:
+                continue
+            if after.get(path) != after2.get(path):
+                errs.append("stray write of the corrected second run: %s (%s -> %s)" % ("/".join(path), after.get(path), after2.get(path)))
+        if r2["cls"] == "Exit0":
+            for path in sorted(outs2):
+                ref = res["ref_contents"].get(path)
+                if ref is not None and after2.get(path) != ref:
+                    errs.append("after the corrected second run output %s does not hold the complete new content" % "/".join(path))
     return errs
 
 
@@ -310,8 +384,9 @@ def check(ctx, only=None):
         pairs = [(P.scn_from_replay(x), x.get("base")) for x in only]
         pairs = [(s, (dict(P.new_scn(b["pkgs"]), **b) if b else None)) for s, b in pairs]
     else:
-        n = 900 if big else 84
+        n = 900 if big else 90
         pairs = [gen_c10(ctx.rng, i) for i in range(n)]
+        pairs.append(gen_symcwd(ctx.rng, True, witness=True))       # known finding C10-lexical-sibling-dir
     results = P.run_pipeline_stream(ctx, pairs, None)
     hist, oracle_fail, terms, tidx, samples = {}, [], [], [], []
     skipped = 0
@@ -323,6 +398,15 @@ def check(ctx, only=None):
         for t in scn["tags"]:
             hist[t] = hist.get(t, 0) + 1
         errs = oracle_c10(res)
+        if scn.get("witness"):
+            # known finding: only the symptom listed in known/C10.json may appear, and it must appear
+            sym = [e for e in errs if re.match(r"stray write: m/work/(mocks|x)\S* is not a designated output \(before None, after DIR\)", e)]
+            listed = any(k["id"] == scn["witness"] for k in load_known("C10"))
+            if listed and sym and len(sym) == len(errs) and res["run"]["cls"] == "Exit0":
+                ctx.known("working directory entered through a symlink + relative dir starting with ..: empty directory created at the lexical sibling (%s)" % scn["witness"])
+            else:
+                oracle_fail.append(P.to_replay(res, ["the symptom of known finding %s changed: exit=%s, oracle says %s; update known/C10.json" % (scn["witness"], res["run"]["cls"], errs[:3])]))
+            continue
         if res.get("ref") and res["ref"]["cls"] != "Exit0":
             errs.append("the valid base configuration of this scenario does not succeed: %s" % res["ref"]["tail"][-300:])
         if errs:
